@@ -457,12 +457,11 @@ Proof.
   rewrite (A_token _ _ H). destruct (token c) eqn:T1; try exact I.
   assert (H1 : A (skip 1 c) (skip 1 c')) by asolve. rewrite (A_token _ _ H1).
   destruct (token (skip 1 c)) as [| | | | | |k|] eqn:T2; try exact I. destruct k; try exact I.
-  assert (H2 : A (skip 2 c) (skip 2 c')).
-  { apply (A_skip2_any c c' (TK KColon)); [exact H|rewrite T1; reflexivity|exact T2|reflexivity|discriminate]. }
-  rewrite (SimGen.sat_constraints_inner (local_fuel c) (lf2 c c') (skip 2 c)),
-          (SimGen.sat_constraints_inner (local_fuel c') (lf2 c c') (skip 2 c'));
-    [|apply SimGen.lf_ok; apply SimGen.plen_skip|apply SimGen.lf2_r; apply SimGen.plen_skip
-     |apply SimGen.lf_ok; apply SimGen.plen_skip|apply SimGen.lf2_l; apply SimGen.plen_skip].
+  assert (H2 : A (skip 1 (skip 1 c)) (skip 1 (skip 1 c'))) by asolve.
+  rewrite (SimGen.sat_constraints_inner (local_fuel c) (lf2 c c') (skip 1 (skip 1 c))),
+          (SimGen.sat_constraints_inner (local_fuel c') (lf2 c c') (skip 1 (skip 1 c')));
+    [|apply SimGen.lf_ok; apply SimGen.plen_skip2|apply SimGen.lf2_r; apply SimGen.plen_skip2
+     |apply SimGen.lf_ok; apply SimGen.plen_skip2|apply SimGen.lf2_l; apply SimGen.plen_skip2].
   apply (rbindB (VR idf)); [apply constraints_innerB; exact H2|]. xr_introB.
   destruct b; [apply IH; exact HR|psimsB].
 Qed.
